@@ -630,7 +630,10 @@ META = {
         "string is `self.<operand> <op> <sliced>` (pending operand on the left; an operator table "
         "{symbol: operator.<fn>} applied as TABLE[op](operand, sliced) is checked entry by entry instead), taken iff an "
         "operand is pending (if/else, conditional expression or early return). R7: an operator that stores a pending "
-        "operand does so only after looking at an operand that is already pending (known finding D18). All methods are "
+        "operand does so only after looking at an operand that is already pending (known finding D18). R8: outside the owning "
+        "classes (ArraySlicer; classes keeping an ArraySlicer in an attribute such as Projection._slicer) slicer state is stored "
+        "only on objects the function created itself (constructor call or copy on every path, by reaching definitions); a "
+        "store on a parameter or on a component of another object (op.children[1]._slicer = ...) is a finding. All methods are "
         "analysed on normalised deep copies (private one-level helpers inlined, aliases / module constants propagated, "
         "tuple assignments split, .format/% templates as f-strings), so behaviour-preserving refactorings do not "
         "change the verdict. "
@@ -646,7 +649,7 @@ META = {
                     "attributes of a slicer are only stored inside the class body"],
     "technique": "AST normalisation (helper inlining, copy propagation) + CFG reaching definitions + alias classification; def-use table agreement between __init__, copy, transpose and the dunders",
 }
-MIN_INSTANCES = {"R1": 7, "R2": 13, "R3": 5, "R4": 10, "R5": 5, "R6": 5, "R7": 6}
+MIN_INSTANCES = {"R1": 7, "R2": 13, "R3": 5, "R4": 10, "R5": 5, "R6": 5, "R7": 6, "R8": 1}
 
 
 # ----------------------------------------------------------------------------------------
@@ -711,8 +714,9 @@ class _Alias:
     """Classifies what a name may refer to at a CFG node: a set of tags
     'fresh' | 'param:<p>' | 'unknown'."""
 
-    def __init__(self, fn: ast.FunctionDef):
+    def __init__(self, fn: ast.FunctionDef, parts: bool = False):
         self.fn = fn
+        self.parts = parts   # report a component of another object (a.b, a[i]) as 'part:<expr>' instead of its root's tags
         self.cfg = cfgmod.build(fn)
         self.IN = _reaching(self.cfg, fn)
 
@@ -753,6 +757,8 @@ class _Alias:
             return {"unknown"}
         if isinstance(e, ast.IfExp):
             return self.of_expr(e.body, node, depth + 1) | self.of_expr(e.orelse, node, depth + 1)
+        if isinstance(e, (ast.Attribute, ast.Subscript)) and self.parts:
+            return {"part:" + u(e)[:60]}
         if isinstance(e, (ast.Attribute, ast.Subscript)):
             # a component / view of the root object: mutating it mutates the root
             return self.of_expr(_root(e), node, depth + 1) if isinstance(_root(e), ast.Name) else {"unknown"}
@@ -962,6 +968,81 @@ def _r7_pending_slot(ctx: Ctx, mod, meths, pend) -> None:
         raise AnchorError(f"{CLS}: expected at least 6 operators storing a pending operand, found {n}")
 
 
+OPS = "src/porepy/numerics/ad/operators.py"
+
+
+def _r8_foreign_state_stores(ctx: Ctx, slicer_attrs: set[str]) -> None:
+    """R8: slicer state is owned by its object.  Outside the owning classes (ArraySlicer for its own attributes; the
+    classes that keep an ArraySlicer in an attribute, e.g. Projection._slicer, for that attribute) a function may store
+    into such state only on an object it created itself: on every path the target is bound to a constructor call or a
+    copy (copy.copy / copy.deepcopy / .copy()).  A store on a parameter, on a component of another object
+    (op.children[1]) or on an alias of one rewires a slicer that other operator trees still use."""
+    scope = SWEEP_DIRS if ctx.tier != "thorough" else ("src/porepy",)
+    mods = [m for d in scope for m in ctx.repo.modules(d)]
+    if not any(m.rel == OPS for m in mods):
+        raise AnchorError(f"{OPS} not in the analysed scope")
+    # attributes that hold an ArraySlicer, with the classes that own them
+    holders: dict[str, set[str]] = {}
+    for m in mods:
+        for cq, cls in m.classes():
+            for fn in methods(cls).values():
+                for st in stmts_local(fn):
+                    if isinstance(st, (ast.Assign, ast.AnnAssign)) and getattr(st, "value", None) is not None:
+                        txt = u(st.value) + (u(st.annotation) if isinstance(st, ast.AnnAssign) else "")
+                        if CLS in txt:
+                            for t in assigned_targets(st):
+                                if isinstance(t, ast.Attribute) and u(t.value) == "self":
+                                    holders.setdefault(t.attr, set()).add(cq.split(".")[-1])
+    if not holders:
+        raise AnchorError("no attribute holding an ArraySlicer found (Projection._slicer expected)")
+    owners = {a: {CLS} for a in slicer_attrs}
+    for a, cs in holders.items():
+        owners.setdefault(a, set()).update(cs)
+    ctx.sample({"rule": "R8", "slicer_holding_attributes": {a: sorted(c) for a, c in holders.items()}})
+    n = 0
+    for m in mods:
+        subclasses = {cq.split(".")[-1]: {(dotted(b) or "").split(".")[-1] for b in cls.bases} for cq, cls in m.classes()}
+        for q, fn in m.functions():
+            cls_of = q.split(".")[-2] if "." in q else None
+            sites = []
+            for st in stmts_local(fn):
+                tgts = assigned_targets(st) if isinstance(st, (ast.Assign, ast.AugAssign, ast.AnnAssign)) and getattr(st, "value", True) is not None else []
+                for t in tgts:
+                    if isinstance(t, ast.Attribute) and t.attr in owners:
+                        sites.append((st, t.value, t.attr))
+                for c in (calls_in(st) if isinstance(st, ast.Expr) else []):
+                    if isinstance(c.func, ast.Name) and c.func.id == "setattr" and len(c.args) == 3 and isinstance(c.args[1], ast.Constant) \
+                            and c.args[1].value in owners:
+                        sites.append((st, c.args[0], c.args[1].value))
+            if not sites:
+                continue
+            al = None
+            for st, recv, attr in sites:
+                own = owners[attr]
+                if cls_of is not None and (cls_of in own or (subclasses.get(cls_of, set()) & own)):
+                    continue  # the owning class manages its own state (R1/R2/R4 look at ArraySlicer itself)
+                n += 1
+                if al is None:
+                    al = _Alias(fn, parts=True)
+                node = al.cfg.node_for(st)
+                if isinstance(recv, ast.Name):
+                    tags = al.of_name(recv.id, node)
+                else:
+                    tags = al.of_expr(recv, node)
+                foreign = sorted(t for t in tags if t.startswith(("param:", "part:")))
+                if not foreign and tags != {"fresh"}:
+                    raise Undecided(f"{m.rel}:{q}: `{u(st)}` stores slicer state on `{u(recv)}` whose origin is not a recognised "
+                                    f"constructor call / copy / parameter / component ({sorted(tags)})")
+                what = "; ".join(("the parameter " + t[6:]) if t.startswith("param:") else ("the existing object " + t[5:]) for t in foreign)
+                ctx.check("R8", not foreign, m, q, st,
+                          f"`{u(st)}` replaces slicer state (`{attr}`, owned by {sorted(own)}) of an object this function did not create: "
+                          f"`{u(recv)}` may be {what}; every other operator tree using that object now evaluates differently. Store on a copy "
+                          f"(copy.copy / .copy()) or a new object", construct=u(st), facts={"receiver": u(recv), "origin": sorted(tags)},
+                          desc=f"`{u(st)}`: the receiver is created in this function (copy / constructor) on every path")
+    if n == 0:
+        raise AnchorError("no store into slicer state outside the owning classes found (sum_projection_list expected)")
+
+
 def run(ctx: Ctx) -> None:
     mod = ctx.repo.module(MATOPS)
     cls = mod.cls(CLS)
@@ -988,6 +1069,7 @@ def run(ctx: Ctx) -> None:
     onto_attrs = _r6_kernels(ctx, mod, meths, stores, deps)
     _r5_transpose(ctx, mod, meths, stores, ctor_params, onto_attrs)
     _r7_pending_slot(ctx, mod, meths, pend)
+    _r8_foreign_state_stores(ctx, set(_class_attrs_of(meths)))
     if ctx.tier == "thorough":
         _sweep(ctx)
         _notes(ctx, meths, pend)
@@ -1764,6 +1846,11 @@ def _m(name, old, new, rule, control=False, count=1, file=MATOPS):
 
 
 MUTANTS = [
+    _m("revert-fix-sum-projection-list-mutates-child", "            child_1 = copy.copy(op.children[1])\n", "            child_1 = op.children[1]\n",
+       "R8", control=True, file=OPS),
+    _m("sum-projection-list-copy-taken-store-on-original", "            child_1._slicer = prod\n", "            op.children[1]._slicer = prod\n", "R8", file=OPS),
+    _m("sum-projection-list-copy-discarded", "            child_1 = copy.copy(op.children[1])\n",
+       "            child_1_copy = copy.copy(op.children[1])\n            child_1 = op.children[1]\n", "R8", file=OPS),
     # reverted fix D7
     _m("revert-fix-matmul-mutates-operand",
        "            slicer = x.copy()\n            slicer._pending_operand = self\n            slicer._pending_operation = \"@\"\n            return slicer\n",
